@@ -1048,6 +1048,9 @@ func (x *Exec) specCall(env *SpecEnv, c ECall) SpecVal {
 	case "seqof":
 		v := x.spec(env, c.Args[0])
 		return x.sliceToSeq(env.st, v)
+	case "oncedone":
+		o := x.specTerm(env, c.Args[0])
+		return SpecVal{T: Select(x.heapGet(env.st, "$oncedone", SArr(SInt, SBool)), o)}
 	case "apply":
 		// apply(f, args...): application of a pure-role function value
 		fv := x.spec(env, c.Args[0])
